@@ -18,7 +18,8 @@ CLAIM = dict(
          'scalings are the stated affine maps followed by clipping. For every number type: scalar = '
          'per-dimension options, batch = map of singles, mismatching declared lengths => Err ValueError '
          '(grid_prep_opts; a/b/n of ind_to_poi; a/b of poi_scale; a/b/n of poi_to_ind for every dimension d: '
-         'poi_to_ind_rejects_n, poi_to_ind_rejects). The model of poi_to_ind is the repaired code (n goes through '
+         'poi_to_ind_rejects_n, poi_to_ind_rejects, never succeeds whatever a/b/kind: poi_to_ind_rejects_n_never_ok; '
+         'batches [m,d] are rejected as their rows: batch_rejects). The model of poi_to_ind is the repaired code (n goes through '
          'grid_prep_opts(None, None, n, d, m), /repo bc9fc68); for the pinned variant (n prepared by grid_prep_opt alone) '
          'the finding is machine-checked: it accepted every list n of length <> 1 when d = 1 '
          '(poi_to_ind_pinned_accepts_n_d1, witness poi_to_ind_pinned_refuted) and agrees with the code on every '
@@ -993,6 +994,15 @@ def search(R, ctx, deep, hints):
         f['what'] = 'poi_to_ind: a list n longer than the dimension d=1 is not rejected (n must go through the length ' \
                     'validation of grid_prep_opts; fix bc9fc68 reverted?)'
         fails.append(f)
+    # observation, not a verdict: a TUPLE-valued option is outside the documented argument types (float, list,
+    # np.ndarray) and outside the model; grid_prep_opts does not length-validate it.  Recorded in the evidence notes.
+    try:
+        r = tn.poi_to_ind([.1], 0., 1., (4, 5, 6))
+        R.notes.append('observation (reported to the lead, outside the documented argument types and the modelled domain): '
+                       'tuple-valued options skip the length validation of grid_prep_opts, e.g. '
+                       'poi_to_ind([0.1], 0., 1., (4, 5, 6)) returned %s' % C.tolist(np.asarray(r)))
+    except Exception:
+        pass
     # 7. cdf
     for _ in range(200 if deep else 50):
         m = rng.randint(1, 12)
